@@ -26,7 +26,8 @@ SimNext ==
         \/ \E k \in R(Sierra), x \in R(Compiled) : AddDeclare(k, x)
      /\ UNCHANGED <<deployed, nonce, store, declared, ctrie, cltrie, blocks>>
   \/ EndBlock
-  \/ (EndBlock /\ blocks >= 0)
+  \/ (EndBlock /\ diff # EmptyDiff)
+  \/ (EndBlock /\ diff # EmptyDiff /\ blocks >= 0)
 
 Proj == [deployed |-> deployed', nonce |-> nonce', store |-> store', declared |-> declared']
 Step == SimNext /\ hist' = Append(hist, IF act'.name = "EndBlock" THEN [a |-> act', st |-> Proj] ELSE [a |-> act'])
